@@ -499,7 +499,10 @@ Proof.
   rewrite wc_id in He. unfold iX in *. rewrite He. clear He.
   destruct (import_blocks p (own_w st w) n k (Z.min (k + B) (fst (tip (x_w st))))
               (credits (x_w st), x_brecs st) n) as [[cs brs]|e].
-  - rewrite exec_Write. cbn. split; reflexivity.
+  - rewrite exec_Write.
+    change (x_w (wc st cs brs)) with {| credits := cs; synced := synced (x_w st) |}.
+    change (node_on_synced n {| credits := cs; synced := synced (x_w st) |}) with (node_on_synced n (x_w st)).
+    destruct (f_import_tipcheck fx && negb (node_on_synced n (x_w st) (Z.min (k + B) (fst (tip (x_w st)))))); cbn; split; reflexivity.
   - unfold iout_map. rewrite Hfx. destruct e; cbn; split; reflexivity.
 Qed.
 
@@ -608,7 +611,7 @@ Proof.
 Qed.
 
 Lemma new_address_attempt : forall sh w st m,
-  attempt tt (new_address_op sh w) NoFault st m = (Import.new_address st sh w, m ++ [(sh, w)], inr tt).
+  attempt tt (new_address_op fx sh w) NoFault st m = (Import.new_address st sh w, m ++ [(sh, w)], inr tt).
 Proof.
   intros sh w st m. rewrite attempt_nofault. unfold quiet, new_address_op. cbn [body post undo].
   unfold new_address_prog. rewrite exec_Read, exec_Write. cbn [exec]. rewrite exec_Write. reflexivity.
@@ -617,31 +620,79 @@ Qed.
 Lemma drop_wallet_one : forall sh w, drop_wallet w [(sh, w)] = [].
 Proof. intros sh w. unfold drop_wallet. cbn [filter snd]. rewrite N.eqb_refl. reflexivity. Qed.
 
-(* as long as the reload that repairs the table does not fail itself, a failed NewAddress leaves no trace *)
-Lemma new_address_undone : forall sh w st m f, coherent st m -> fundo f = false ->
-  undone tt (new_address_op sh w) st m f.
+(* the memory a NewAddress attempt can reach, whatever fails: the table, or the table with the address *)
+Lemma new_address_reach : forall sh w j st (m : kcache),
+  snd (fst (exec (new_address_prog sh w) j st m)) = m \/
+  snd (fst (exec (new_address_prog sh w) j st m)) = m ++ [(sh, w)].
 Proof.
-  intros sh w st m f Hco Hf.
+  intros sh w j st m. unfold new_address_prog, Read, Write, Call.
+  destruct j as [[|[|[|j]]]|]; cbn; auto.
+Qed.
+
+Lemma forget_last_same : forall st, forget_last st (x_keys st) = x_keys st.
+Proof. intros st. unfold forget_last. rewrite Nat.ltb_irrefl. reflexivity. Qed.
+
+Lemma forget_last_added : forall st e, forget_last st (x_keys st ++ [e]) = x_keys st.
+Proof.
+  intros st e. unfold forget_last. rewrite app_length. cbn [length].
+  replace (length (x_keys st) <? length (x_keys st) + 1)%nat with true by (symmetry; apply Nat.ltb_lt; lia).
+  apply removelast_last.
+Qed.
+
+(* the code as it stands (96d76da): a failed NewAddress leaves no trace, whatever fails and whatever the
+   storage does afterwards — the repair does not touch it *)
+Lemma new_address_undone : forall sh w st m f, f_keystore_undo fx = true -> coherent st m ->
+  undone tt (new_address_op fx sh w) st m f.
+Proof.
+  intros sh w st m f Hfx Hco. unfold coherent in Hco. subst m.
+  apply undone_reach; cbn [undo body new_address_op]; rewrite Hfx.
+  - intros j. destruct (new_address_reach sh w j st (x_keys st)) as [H|H]; rewrite H;
+      [apply forget_last_same|apply forget_last_added].
+  - apply forget_last_same.
+Qed.
+
+Theorem new_address_fault_retry : forall sh w st m, f_keystore_undo fx = true -> coherent st m ->
+  (forall k u, (k < ncalls (new_address_op fx sh w) st m)%nat ->
+     attempt tt (new_address_op fx sh w) (Fault k u) st m = (st, m, inl tt)) /\
+  (forall fs, retry tt (new_address_op fx sh w) fs st m =
+     (Import.new_address st sh w, x_keys (Import.new_address st sh w), inr tt)).
+Proof.
+  intros sh w st m Hfx Hco.
+  destruct (some_undone _ _ _ _ _ tt (new_address_op fx sh w) (fun _ => True) st m
+              (new_address_prog_propagates sh w)
+              (fun f _ => new_address_undone sh w st m f Hfx Hco)) as [H1 H2].
+  split.
+  - intros k u Hk. apply H1; [exact I|exact Hk].
+  - intros fs. rewrite H2 by (apply Forall_forall; intros; exact I).
+    rewrite new_address_attempt. cbn [x_keys Import.new_address]. rewrite Hco. reflexivity.
+Qed.
+
+(* ---- the code before 96d76da (f_keystore_undo = false): the repair is a reload of the keystore from the store.
+   As long as that reload does not fail itself, a failed NewAddress leaves no trace *)
+Lemma new_address_undone_reload : forall sh w st m f, f_keystore_undo fx = false -> coherent st m -> fundo f = false ->
+  undone tt (new_address_op fx sh w) st m f.
+Proof.
+  intros sh w st m f Hfx Hco Hf.
   apply (undone_inv _ _ _ _ _ tt
            (fun g => g = (fun m0 : kcache => m0 ++ [(sh, w)]))
            (fun m' => drop_wallet w m' = drop_wallet w (x_keys st))).
   - apply new_address_prog_writes.
   - intros g m' Hg Hm. subst g. rewrite drop_wallet_app, drop_wallet_one, app_nil_r. exact Hm.
   - rewrite Hco. reflexivity.
-  - intros m' Hm. cbn [undo new_address_op]. rewrite Hf. rewrite Hco. apply reload_dropped. exact Hm.
+  - intros m' Hm. cbn [undo new_address_op]. rewrite Hfx, Hf. rewrite Hco. apply reload_dropped. exact Hm.
 Qed.
 
-Theorem new_address_fault_retry : forall sh w st m, coherent st m ->
-  (forall k, (k < ncalls (new_address_op sh w) st m)%nat ->
-     attempt tt (new_address_op sh w) (Fault k false) st m = (st, m, inl tt)) /\
+Theorem new_address_fault_retry_reload : forall sh w st m, f_keystore_undo fx = false -> coherent st m ->
+  (forall k, (k < ncalls (new_address_op fx sh w) st m)%nat ->
+     attempt tt (new_address_op fx sh w) (Fault k false) st m = (st, m, inl tt)) /\
   (forall fs, Forall (fun f => fundo f = false) fs ->
-     retry tt (new_address_op sh w) fs st m =
+     retry tt (new_address_op fx sh w) fs st m =
      (Import.new_address st sh w, x_keys (Import.new_address st sh w), inr tt)).
 Proof.
-  intros sh w st m Hco.
-  destruct (some_undone _ _ _ _ _ tt (new_address_op sh w) (fun f => fundo f = false) st m
+  intros sh w st m Hfx Hco.
+  destruct (some_undone _ _ _ _ _ tt (new_address_op fx sh w) (fun f => fundo f = false) st m
               (new_address_prog_propagates sh w)
-              (fun f Hf => new_address_undone sh w st m f Hco Hf)) as [H1 H2].
+              (fun f Hf => new_address_undone_reload sh w st m f Hfx Hco Hf)) as [H1 H2].
   split.
   - intros k Hk. apply H1; [reflexivity|exact Hk].
   - intros fs Hfs. rewrite (H2 fs Hfs). rewrite new_address_attempt. cbn [x_keys Import.new_address]. rewrite Hco. reflexivity.
@@ -649,11 +700,11 @@ Qed.
 
 (* ... and when it does fail (the failed call and then the BeginReadTx / a Get of the reload): the
    whole keystore is gone from the table although it is in the store — the code as repaired in
-   f6a5978 (wallet.go NewAddress: RemoveCachedKeystore, then a View whose error is dropped) *)
-Lemma new_address_reload_fault : forall sh w st m k, coherent st m -> (1 <= k < 5)%nat ->
-  attempt tt (new_address_op sh w) (Fault k true) st m = (st, drop_wallet w (x_keys st), inl tt).
+   f6a5978 (wallet.go NewAddress: RemoveCachedKeystore, then a View whose error is dropped), before 96d76da *)
+Lemma new_address_reload_fault : forall sh w st m k, f_keystore_undo fx = false -> coherent st m -> (1 <= k < 5)%nat ->
+  attempt tt (new_address_op fx sh w) (Fault k true) st m = (st, drop_wallet w (x_keys st), inl tt).
 Proof.
-  intros sh w st m k Hco Hk. unfold attempt, new_address_op. cbn [body post undo fundo].
+  intros sh w st m k Hfx Hco Hk. unfold attempt, new_address_op. cbn [body post undo fundo]. rewrite Hfx.
   unfold new_address_prog, Read, Write, Call.
   unfold coherent in Hco. subst m.
   destruct k as [|[|[|[|[|k]]]]]; try lia; cbn -[drop_wallet]; rewrite ?drop_wallet_app, ?drop_wallet_one, ?app_nil_r; reflexivity.
@@ -885,23 +936,58 @@ Proof.
   destruct fin; reflexivity.
 Qed.
 
-(* as long as the reload that repairs the table does not fail itself, a failed round leaves no trace *)
-Lemma round_undone : forall cap lookup w st m f, coherent st m -> fundo f = false ->
+(* the code as it stands (96d76da): RestoreCachedKeystore cannot fail — a failed round leaves no trace,
+   whatever fails and whatever the storage does afterwards *)
+Lemma round_undone : forall cap lookup w st m f, f_keystore_undo fx = true -> coherent st m ->
   undone tt (round_op fx n cap lookup w) st m f.
 Proof.
-  intros cap lookup w st m f Hco Hf. unfold coherent in Hco. subst m.
+  intros cap lookup w st m f Hfx Hco. unfold coherent in Hco. subst m.
   apply (undone_inv _ _ _ _ _ tt (fun g => g = drop_wallet w)
            (fun m' => m' = x_keys st \/ m' = drop_wallet w (x_keys st))).
   - apply round_prog_writes.
   - intros g m' Hg [Hm|Hm]; subst g m'; right; [reflexivity|apply drop_wallet_idem].
   - left. reflexivity.
-  - intros m' [Hm|Hm]; subst m'; cbn [undo round_op]; rewrite Hf.
+  - intros m' [Hm|Hm]; subst m'; cbn [undo round_op]; rewrite Hfx.
     + apply reload_coherent.
     + apply reload_dropped. reflexivity.
 Qed.
 
 (* C18 for every round of a removal, whatever the cap *)
-Theorem round_fault_retry : forall cap lookup w st m, coherent st m ->
+Theorem round_fault_retry : forall cap lookup w st m, f_keystore_undo fx = true -> coherent st m ->
+  (forall k u, (k < ncalls (round_op fx n cap lookup w) st m)%nat ->
+     attempt tt (round_op fx n cap lookup w) (Fault k u) st m = (st, m, inl tt)) /\
+  (forall fs, retry tt (round_op fx n cap lookup w) fs st m =
+     (fst (remove_round fx cap n lookup st w), x_keys (fst (remove_round fx cap n lookup st w)),
+      inr (snd (remove_round fx cap n lookup st w)))).
+Proof.
+  intros cap lookup w st m Hfx Hco.
+  destruct (some_undone _ _ _ _ _ tt (round_op fx n cap lookup w) (fun _ => True) st m
+              (round_prog_propagates cap lookup w)
+              (fun f _ => round_undone cap lookup w st m f Hfx Hco)) as [H1 H2].
+  split.
+  - intros k u Hk. apply H1; [exact I|exact Hk].
+  - intros fs. rewrite H2 by (apply Forall_forall; intros; exact I).
+    rewrite round_attempt, round_keys. unfold coherent in Hco. subst m.
+    destruct (snd (remove_round fx cap n lookup st w)); reflexivity.
+Qed.
+
+(* ---- the code before 96d76da (f_keystore_undo = false): as long as the reload that repairs the table does not
+   fail itself, a failed round leaves no trace *)
+Lemma round_undone_reload : forall cap lookup w st m f, f_keystore_undo fx = false -> coherent st m -> fundo f = false ->
+  undone tt (round_op fx n cap lookup w) st m f.
+Proof.
+  intros cap lookup w st m f Hfx Hco Hf. unfold coherent in Hco. subst m.
+  apply (undone_inv _ _ _ _ _ tt (fun g => g = drop_wallet w)
+           (fun m' => m' = x_keys st \/ m' = drop_wallet w (x_keys st))).
+  - apply round_prog_writes.
+  - intros g m' Hg [Hm|Hm]; subst g m'; right; [reflexivity|apply drop_wallet_idem].
+  - left. reflexivity.
+  - intros m' [Hm|Hm]; subst m'; cbn [undo round_op]; rewrite Hfx, Hf.
+    + apply reload_coherent.
+    + apply reload_dropped. reflexivity.
+Qed.
+
+Theorem round_fault_retry_reload : forall cap lookup w st m, f_keystore_undo fx = false -> coherent st m ->
   (forall k, (k < ncalls (round_op fx n cap lookup w) st m)%nat ->
      attempt tt (round_op fx n cap lookup w) (Fault k false) st m = (st, m, inl tt)) /\
   (forall fs, Forall (fun f => fundo f = false) fs ->
@@ -909,23 +995,23 @@ Theorem round_fault_retry : forall cap lookup w st m, coherent st m ->
      (fst (remove_round fx cap n lookup st w), x_keys (fst (remove_round fx cap n lookup st w)),
       inr (snd (remove_round fx cap n lookup st w)))).
 Proof.
-  intros cap lookup w st m Hco.
+  intros cap lookup w st m Hfx Hco.
   destruct (some_undone _ _ _ _ _ tt (round_op fx n cap lookup w) (fun f => fundo f = false) st m
               (round_prog_propagates cap lookup w)
-              (fun f Hf => round_undone cap lookup w st m f Hco Hf)) as [H1 H2].
+              (fun f Hf => round_undone_reload cap lookup w st m f Hfx Hco Hf)) as [H1 H2].
   split.
   - intros k Hk. apply H1; [reflexivity|exact Hk].
   - intros fs Hfs. rewrite (H2 fs Hfs). rewrite round_attempt, round_keys. unfold coherent in Hco. subst m.
     destruct (snd (remove_round fx cap n lookup st w)); reflexivity.
 Qed.
 
-(* what the two consecutive failures (the Commit of the last round, then the reload) leave behind *)
-Lemma round_reload_fault : forall cap lookup w st m, coherent st m ->
+(* what the two consecutive failures (the Commit of the last round, then the reload) left behind before 96d76da *)
+Lemma round_reload_fault : forall cap lookup w st m, f_keystore_undo fx = false -> coherent st m ->
   snd (remove_round fx cap n lookup st w) = true ->
   attempt tt (round_op fx n cap lookup w) (Fault (ncalls (round_op fx n cap lookup w) st m - 1) true) st m =
   (st, drop_wallet w m, inl tt).
 Proof.
-  intros cap lookup w st m Hco Hfin.
+  intros cap lookup w st m Hfx Hco Hfin.
   pose proof (round_attempt cap lookup w st m) as Ha. rewrite Hfin in Ha.
   rewrite attempt_nofault in Ha. unfold quiet in Ha.
   unfold attempt. unfold ncalls.
@@ -938,7 +1024,7 @@ Proof.
   rewrite (H2 (Nat.le_refl _)). rewrite Ho. rewrite Nat.sub_diag.
   remember (snd (fst (exec (body (round_op fx n cap lookup w)) None st m))) as m1 eqn:Hm1.
   assert (Hm : m1 = drop_wallet w m) by (injection Ha as _ Hm _; exact Hm).
-  rewrite Hm. reflexivity.
+  rewrite Hm. cbn [undo round_op]. rewrite Hfx. reflexivity.
 Qed.
 
 End WalletProofs.
@@ -983,7 +1069,8 @@ Proof.
   destruct (memN w (x_dead st)); [reflexivity|].
   destruct (import_blocks p (own_w st w) n k (Z.min (k + B) (fst (tip (x_w st)))) (credits (x_w st), x_brecs st) n)
     as [[cs brs]|[| |]]; try reflexivity.
-  destruct (f_import_retry fx); reflexivity.
+  - destruct (f_import_tipcheck fx && negb _); reflexivity.
+  - destruct (f_import_retry fx); reflexivity.
 Qed.
 
 Lemma remove_request_keys : forall st w pass, x_keys (fst (remove_request st w pass)) = x_keys st.
@@ -1003,7 +1090,7 @@ Hypothesis Hfx : f_import_retry fx = true.
 
 (* one event with the faults of its failed attempts does what the event without fault does, and the
    table follows the store *)
-Lemma xstep_f_step : forall s e fs, reload_works (e, fs) ->
+Lemma xstep_f_step : forall s e fs, f_keystore_undo fx = true \/ (f_keystore_undo fx = false /\ reload_works (e, fs)) ->
   xstep_f fx p B cap (s, x_keys (xs_st s)) (e, fs) =
   (xstep fx p B cap s e, x_keys (xs_st (xstep fx p B cap s e))).
 Proof.
@@ -1020,9 +1107,11 @@ Proof.
   - cbn [xstep]. unfold new_wallet.
     destruct (import_start_fault_retry w pass [] (xs_st s) (x_keys (xs_st s)) eq_refl) as [_ H]. rewrite (H fs).
     destruct (import_start (xs_st s) w pass []) as [st'|]; [reflexivity|rewrite with_st_id; reflexivity].
-  - cbn [xstep].
-    destruct (new_address_fault_retry sh w (xs_st s) (x_keys (xs_st s)) eq_refl) as [_ H]. rewrite (H fs Hfs).
-    reflexivity.
+  - cbn [xstep]. destruct Hfs as [Hu|[Hu Hfs]].
+    + destruct (new_address_fault_retry fx sh w (xs_st s) (x_keys (xs_st s)) Hu eq_refl) as [_ H]. rewrite (H fs).
+      reflexivity.
+    + destruct (new_address_fault_retry_reload fx sh w (xs_st s) (x_keys (xs_st s)) Hu eq_refl) as [_ H]. rewrite (H fs Hfs).
+      reflexivity.
   - cbn [xstep].
     destruct (import_start_fault_retry w pass shs (xs_st s) (x_keys (xs_st s)) eq_refl) as [_ H]. rewrite (H fs).
     destruct (import_start (xs_st s) w pass shs) as [st'|]; [reflexivity|rewrite with_st_id; reflexivity].
@@ -1041,29 +1130,44 @@ Proof.
   - cbn [xstep].
     destruct (phase1_fault_retry w (xs_st s) (x_keys (xs_st s))) as [_ H]. rewrite (H fs).
     cbn [with_st xs_st]. destruct (remove_phase1_frames_others (xs_st s) w) as [_ [_ [Hk _]]]. rewrite Hk. reflexivity.
-  - cbn [xstep].
-    destruct (round_fault_retry fx (xs_node s) cap (find_tx (xs_all s)) w (xs_st s) (x_keys (xs_st s)) eq_refl) as [_ H].
-    rewrite (H fs Hfs). reflexivity.
+  - cbn [xstep]. destruct Hfs as [Hu|[Hu Hfs]].
+    + destruct (round_fault_retry fx (xs_node s) cap (find_tx (xs_all s)) w (xs_st s) (x_keys (xs_st s)) Hu eq_refl) as [_ H].
+      rewrite (H fs). reflexivity.
+    + destruct (round_fault_retry_reload fx (xs_node s) cap (find_tx (xs_all s)) w (xs_st s) (x_keys (xs_st s)) Hu eq_refl) as [_ H].
+      rewrite (H fs Hfs). reflexivity.
   - reflexivity.
 Qed.
 
 (* C18 over whole histories of the multi-wallet layer: any operation of any history may fail at any
-   call, any number of times in a row; as long as no reload of the keystore table fails itself, the
-   run ends in the state of the run without faults, and the table is the store's *)
-Theorem xrun_faults : forall n h, reloads_work h ->
+   call, any number of times in a row, with any flags; the run ends in the state of the run without
+   faults, and the table is the store's.  (The code before 96d76da: as long as no reload of the keystore
+   table fails itself.) *)
+Lemma xrun_faults_gen : forall n h, f_keystore_undo fx = true \/ (f_keystore_undo fx = false /\ reloads_work h) ->
   xrun_f fx p B cap n h =
   (xrun fx p B cap n (map fst h), x_keys (xs_st (xrun fx p B cap n (map fst h)))).
 Proof.
   intros n h. unfold xrun_f, xrun.
-  assert (Hgen : forall s, reloads_work h ->
+  assert (Hgen : forall s, f_keystore_undo fx = true \/ (f_keystore_undo fx = false /\ reloads_work h) ->
             fold_left (xstep_f fx p B cap) h (s, x_keys (xs_st s)) =
             (fold_left (xstep fx p B cap) (map fst h) s, x_keys (xs_st (fold_left (xstep fx p B cap) (map fst h) s)))).
   { induction h as [|[e fs] r IH]; intros s Hw.
     - reflexivity.
-    - cbn [map fold_left fst]. inversion Hw as [|x l Hx Hl]. subst x l.
-      rewrite (xstep_f_step s e fs Hx). apply IH. exact Hl. }
+    - cbn [map fold_left fst]. destruct Hw as [Hu|[Hu Hw]].
+      + rewrite (xstep_f_step s e fs (or_introl Hu)). apply IH. left. exact Hu.
+      + inversion Hw as [|x l Hx Hl]. subst x l.
+        rewrite (xstep_f_step s e fs (or_intror (conj Hu Hx))). apply IH. right. split; assumption. }
   intros Hw. apply (Hgen (xinit_sim n) Hw).
 Qed.
+
+Theorem xrun_faults : forall n h, f_keystore_undo fx = true ->
+  xrun_f fx p B cap n h =
+  (xrun fx p B cap n (map fst h), x_keys (xs_st (xrun fx p B cap n (map fst h)))).
+Proof. intros n h Hu. apply xrun_faults_gen. left. exact Hu. Qed.
+
+Theorem xrun_faults_reload : forall n h, f_keystore_undo fx = false -> reloads_work h ->
+  xrun_f fx p B cap n h =
+  (xrun fx p B cap n (map fst h), x_keys (xs_st (xrun fx p B cap n (map fst h)))).
+Proof. intros n h Hu Hw. apply xrun_faults_gen. right. split; assumption. Qed.
 
 End HistoryProofs.
 
